@@ -344,3 +344,27 @@ def depends(cx, rule, prop, rule_ids, name, prog=None, only=None):
         rule.violation('%s|broken|%s' % (name, ';'.join(sorted(v.key for v in broken))), '%s does not hold (%s)' % (
             name, '; '.join('%s: %s' % (v.key, v.what[:160]) for v in broken[:3])), loc=prop)
     return broken
+
+
+def _contains_node(root, target):
+    if root is None or target is None:
+        return False
+    for n in ir.walk(root):
+        if n is target:
+            return True
+    return False
+
+
+def conditioned_on(prog, fn_body, inner_node, cond_node):
+    """is `inner_node` lexically inside a branch of an `if` / `if let` / `match` whose condition (scrutinee) contains `cond_node`?"""
+    for n in ir.walk(fn_body):
+        k = n.get('k')
+        if k == 'If':
+            c, branches = n['cond'], [n['then']] + ([n['else']] if 'else' in n else [])
+        elif k == 'Match':
+            c, branches = n['scrut'], [a['body'] for a in n['arms']]
+        else:
+            continue
+        if _contains_node(c, cond_node) and any(_contains_node(b, inner_node) for b in branches):
+            return True
+    return False
